@@ -258,7 +258,55 @@ func (l *Literals) AddHashFamily(firstClass int) (all []int, sameFrom int) {
 	return all, sameFrom
 }
 
-// Validate checks the table against the real rfc822.GetMessageHash: class -1 <=> error, equal hashes <=> equal class.
+// EncodingNames: the Content-Transfer-Encoding declarations of AddEncodingFamily, in the order of its result.
+var EncodingNames = []string{"binary", "x-raw", "7bit", "8bit", "(absent)", "base64", "quoted-printable"}
+
+// AddEncodingFamily adds single-part text/plain messages (Content-Type with six parameters) that agree in every header
+// except Content-Transfer-Encoding and carry one of two bodies (after decoding): for every encoding of EncodingNames the
+// pair (body A, body B). All A literals share class classA, all B literals classB: the de-duplication hash covers the
+// DECODED body and not the declared encoding. Then two literals equal to "7bit, body A" except for the ORDER of the
+// Content-Type parameters (class classA: the parameters are hashed in sorted order).
+// Returns pairs[e] = {index of A, index of B} and the indices of the re-ordered ones.
+func (l *Literals) AddEncodingFamily(classA, classB int) (pairs [][2]int, reordered []int) {
+	params := []string{"charset=utf-8", "format=flowed", "delsp=yes", "x-app=report", "x-run=nightly", "x-zone=eu"}
+	render := func(ps []string, enc, body string) string {
+		h := "Date: Fri, 05 Jan 2024 06:00:00 +0000\r\nFrom: reports@example.com\r\nTo: ops@example.com\r\nSubject: nightly report\r\n" +
+			"Message-Id: <report@example.com>\r\nMIME-Version: 1.0\r\nContent-Type: text/plain; " + strings.Join(ps, "; ") + "\r\n"
+		if enc != "" {
+			h += "Content-Transfer-Encoding: " + enc + "\r\n"
+		}
+		return h + "\r\n" + body + "\r\n"
+	}
+	bodies := map[string][2]string{
+		"base64":           {"cmVwb3J0IGJvZHkgYWxwaGE=", "cmVwb3J0IGJvZHkgYnJhdm8="},
+		"quoted-printable": {"report body =61lpha", "report body =62ravo"},
+	}
+	for _, e := range EncodingNames {
+		b, ok := bodies[e]
+		if !ok {
+			b = [2]string{"report body alpha", "report body bravo"}
+		}
+		enc := e
+		if e == "(absent)" {
+			enc = ""
+		}
+		pairs = append(pairs, [2]int{l.AddRaw(classA, render(params, enc, b[0])), l.AddRaw(classB, render(params, enc, b[1]))})
+	}
+	for _, order := range [][]int{{5, 2, 0, 4, 1, 3}, {5, 4, 3, 2, 1, 0}} {
+		var ps []string
+		for _, i := range order {
+			ps = append(ps, params[i])
+		}
+		reordered = append(reordered, l.AddRaw(classA, render(ps, "7bit", "report body alpha")))
+	}
+	return pairs, reordered
+}
+
+// HashCalls: how often Validate computes the hash of every literal (the value must not differ between calls).
+const HashCalls = 20
+
+// Validate checks the table against the real rfc822.GetMessageHash: class -1 <=> error, equal hashes <=> equal class,
+// and the hash of a literal is the same on every one of HashCalls calls.
 func (l *Literals) Validate() error {
 	hs := make([]string, len(l.Bytes))
 	for i, b := range l.Bytes {
@@ -267,6 +315,11 @@ func (l *Literals) Validate() error {
 			return fmt.Errorf("literal %d: class %d but GetMessageHash error = %v", i, l.Class[i], err)
 		}
 		hs[i] = h
+		for k := 1; k < HashCalls && err == nil; k++ {
+			if h2, err2 := rfc822.GetMessageHash(b); err2 != nil || h2 != h {
+				return &UnstableHash{Lit: i, Call: k + 1}
+			}
+		}
 	}
 	for i := range hs {
 		for j := range hs {
@@ -276,6 +329,13 @@ func (l *Literals) Validate() error {
 		}
 	}
 	return nil
+}
+
+// UnstableHash: rfc822.GetMessageHash returned different values for the same bytes.
+type UnstableHash struct{ Lit, Call int }
+
+func (e *UnstableHash) Error() string {
+	return fmt.Sprintf("literal %d: call %d of GetMessageHash on the same bytes returned another value than call 1", e.Lit, e.Call)
 }
 
 var reGluonID = regexp.MustCompile(`(?i)^X-Pm-Gluon-Id: [^\r\n]*\r\n`)
